@@ -184,6 +184,23 @@ func TestC11(t *testing.T) {
 				enc, _ := lm.MarshalBinary()
 				nmsgs, noiseWant = append(nmsgs, lm), append(noiseWant, append([]byte{}, enc...))
 			}
+			if gen.Pick(rt, "second_stream_relays_pieces", 2) == 0 {
+				// a relay: the pre-encoded batch is submitted as fixed-size pieces (the last one shorter), which
+				// do not start at frame boundaries; to the stream each piece is a message like any other
+				batch := bytes.Join(noiseWant, nil)
+				ps := []int{7, 8, 12, 16, 24, 64, 100, 1000}[gen.Pick(rt, "piece_size", 8)]
+				nmsgs, noiseWant = nil, nil
+				for o := 0; o < len(batch); o += ps {
+					piece := append([]byte{}, batch[o:min(o+ps, len(batch))]...)
+					noiseWant = append(noiseWant, piece)
+					if len(nmsgs)%2 == 0 {
+						nmsgs = append(nmsgs, util.NewBuffer(append([]byte{}, piece...)))
+					} else {
+						nmsgs = append(nmsgs, &rawMsg{data: append([]byte{}, piece...)})
+					}
+				}
+				c.Label("second_stream_relays_unframed_pieces")
+			}
 			noiseConn = newScriptConn(nil, nil)
 			nms := util.NewMessageStream(noiseConn, copyingParser{})
 			go func() {
@@ -316,7 +333,7 @@ func TestC11(t *testing.T) {
 				time.Sleep(time.Millisecond)
 			}
 			if got := bytes.Join(noiseConn.Writes(), nil); !bytes.Equal(got, bytes.Join(noiseWant, nil)) {
-				c.Report(rt, "C11|second-stream|bytes-differ", fmt.Sprintf("%s: the second stream (one producer, %d library messages) put %d bytes on its wire that are not the concatenation of its messages' encodings (%d bytes)", desc, len(noiseWant), len(got), nt), rep)
+				c.Report(rt, "C11|second-stream|bytes-differ", fmt.Sprintf("%s: the second stream (one producer, %d messages) put %d bytes on its wire that are not the concatenation of its messages' encodings (%d bytes)", desc, len(noiseWant), len(got), nt), rep)
 				return
 			}
 		}
